@@ -870,6 +870,17 @@ def check_sub_structures_pairing(ctx: Ctx) -> None:
 
         cfg = cfg_of(m)
         users = [lp for lp in loops if consumes(ast.Module(body=lp.body, type_ignores=[]))]
+        # the stages may be gone through by a comprehension / map as well: the statement that holds it is the user
+        for st2 in stmts_of(m):
+            if st2 is st or isinstance(st2, (ast.For, ast.While, ast.If, ast.With, ast.Try)):
+                continue
+            for x in ast.walk(st2):
+                if isinstance(x, (ast.ListComp, ast.GeneratorExp, ast.SetComp, ast.DictComp)) and consumes(ast.Module(body=[ast.Expr(value=x)], type_ignores=[])):
+                    users.append(st2)
+                    break
+                if isinstance(x, ast.Call) and dotted(x.func) == "map" and x.args and consumes(ast.Module(body=[ast.Expr(value=ast.Call(func=x.args[0], args=[], keywords=[]))], type_ignores=[])):
+                    users.append(st2)
+                    break
         ok = not inside and bool(users) and all(cfg.dominates(cfg.node_of(st), cfg.node_of(lp)) for lp in users)
         ctx.ob("8.8-sub-structures", cname(MC, "MDAChain", mname), ok, f"`{norm_stmt(st, 70)}` must run once, before the loop over the stages in which the inner MDAs take their structure with next(): " + ("it is inside a loop" if inside else "no consuming loop after it"), node=st, stmt="iterator over the sub coupling structures created once before the stages")
 
